@@ -158,7 +158,17 @@ class ShardedIterable(types.Recoverable, Iterable[_T]):
       raise ValueError(f'num_shards must be positive, got {self._shard_state=}')
 
   def shard(self, shard_index: int, num_shards: int) -> Self:
-    return dc.replace(self, _shard_state=ShardConfig(shard_index, num_shards))
+    # Sharding a shard again takes every `num_shards`-th element of it: in
+    # terms of the underlying iterable that is one round-robin shard again.
+    cur = self._shard_state
+    return dc.replace(
+        self,
+        _shard_state=ShardConfig(
+            cur.shard_index + shard_index * cur.num_shards,
+            cur.num_shards * num_shards,
+            cur.start_index,
+        ),
+    )
 
   @property
   def state(self) -> ShardConfig:
